@@ -3,6 +3,8 @@
 package main
 
 import (
+	"strconv"
+	"bytes"
 	"crypto/ecdsa"
 	"crypto/sha256"
 	"encoding/hex"
@@ -331,8 +333,23 @@ func (m *monitors) audit(w *world, t cpTuple, when string) {
 	for start := int64(0); start < t.size; start += 256 {
 		wd := int(min(256, t.size-start))
 		path := sunlight.TilePath(tlog.Tile{H: 8, L: -2, N: start / 256, W: wd})
-		if _, ok := w.objects[path]; !ok {
+		o, ok := w.objects[path]
+		if !ok {
 			m.fail("C04 %s: missing names tile %s", when, path)
+			continue
+		}
+		// contents: one JSON line per leaf whose certificate parses (computed here from the leaves of
+		// the data tile with the CT x509 parser directly, not through TrimmedEntry)
+		var want []byte
+		for _, e := range leaves[start : start+int64(wd)] {
+			pe := &ctlog.PendingLogEntry{Certificate: e.Certificate, IsPrecert: e.IsPrecert, PreCertificate: e.PreCertificate}
+			if tmpl := namesTemplate(pe); tmpl != nil {
+				want = append(want, bytes.Replace(tmpl, []byte{0xff}, []byte(strconv.FormatInt(e.Timestamp, 10)), 1)...)
+			}
+		}
+		got, err := gunzip(o.data)
+		if err != nil || !bytes.Equal(got, want) {
+			m.fail("C04 %s: names tile %s does not hold exactly the names lines of the parseable leaves of its data tile (%d bytes, expected %d)", when, path, len(got), len(want))
 		}
 	}
 }
